@@ -52,6 +52,11 @@ CLAIMED["C17"] = ("One handler step from an arbitrary state (connected flag, 16-
                   "and payload fields symbolic and on fully symbolic raw datagrams of 0..10 octets: never raises; connect/close/data answered by exactly one ack with the same sn "
                   "and no payload; ack-bit datagrams never acknowledged or echoed; heartbeat echoed iff connected; connected flag and registry updates; registration answer with "
                   "incremented 16-bit sn. Two handlers back to back fall silent within 4 rounds (heartbeat echoes excepted). All histories of depth 3 over 8 message classes.", "6/C17")
+CLAIMED["C18"] = ("P2P: one step from every storage state (3 peers, two sharing an IP; presence and registration symbolic) on FULLY symbolic datagrams of 0..22 octets from a "
+                  "symbolic peer: non-reject answers only for registered sources or as the registration answer, destinations, exactly the single-byte reject for unregistered "
+                  "requests, registration only through the sender's own registration request, other records untouched; histories of depth 2. RDAC: every step 0..14 x "
+                  "{expected prefix, other prefix, symbolic prefix, 1-octet resets} with symbolic tails: advance only on the expected response, restart on reset, other peer's "
+                  "step untouched, completion callback exactly on 13->14; a complete run with interleaving.", "6/C18")
 NOT_YET = {}
 props = [json.loads(l) for l in open(os.path.join(V, "properties.jsonl"))]
 checks = []
